@@ -12,15 +12,15 @@ func init() { checks["C08"] = checkC08 }
 // symbolic input, so a read that resolves to the wrong binding yields a different term.
 
 type scopeGen struct {
-	rng    *rand.Rand
-	sb     strings.Builder
-	indent int
-	nin    int
-	scopes []map[string]bool // names declared per open Go scope
-	depth  int
-	maxIn  int
-	kinds  map[string]int
-	loopV  int
+	rng      *rand.Rand
+	sb       strings.Builder
+	indent   int
+	nin      int
+	scopes   []map[string]bool // names declared per open Go scope
+	depth    int
+	maxIn    int
+	kinds    map[string]int
+	loopV    int
 	useFirst []string
 	loopVars map[int]map[string]bool
 }
@@ -187,8 +187,16 @@ func (g *scopeGen) stmt(tag *int) {
 	case 7: // for with a private counter: body variables start fresh on every iteration
 		v := g.loopV
 		g.loopV++
-		g.line("for c%d := 0; c%d < 2; c%d++ {", v, v, v)
-		g.kinds["for-body"]++
+		if as := g.assignable(); len(as) > 0 && g.rng.Intn(2) == 0 {
+			// the post statement updates a scope name of the ENCLOSING block, also when the body redeclares that name
+			n := as[g.rng.Intn(len(as))]
+			g.line("for c%d := 0; c%d < 2; %s += 10 {", v, v, n)
+			g.line("\tc%d++", v)
+			g.kinds["for-post-outer-name"]++
+		} else {
+			g.line("for c%d := 0; c%d < 2; c%d++ {", v, v, v)
+			g.kinds["for-body"]++
+		}
 		g.block(tag, 3)
 		g.line("}")
 	case 8: // range with key/value names from the scope set
